@@ -436,6 +436,62 @@ def _locals(f: Func) -> set:
     return {n.id for n in walk_no_nested(f.node) if isinstance(n, ast.Name) and isinstance(n.ctx, ast.Store)} | {p.name for p in f.params}
 
 
+def check_metric_call_history(ctx: Ctx):
+    """R15.9: the metric objects are module-level singletons shared by every evaluation in the process.
+    A call with per-call options must leave nothing behind: the arguments a later plain call hands to
+    the metric's kernel are those a plain call on an untouched metric object hands over."""
+    from .arrdom import AArr
+    from .c06 import SelInterp
+
+    prog = ctx.prog
+    mcall = prog.func("metrics.metrics:_Metric.__call__")
+    mv_cls = mcall.cls
+    has_varkw = mcall.node.args.kwarg is not None
+
+    def plain_args():
+        args = {}
+        for p in mcall.call_params:
+            n = p.name.lower()
+            if n.startswith("ref") and "idx" not in n:
+                args[p.name] = AArr("REF", False)
+            elif n.startswith("pred") and "idx" not in n:
+                args[p.name] = AArr("PRED", False)
+            elif n.startswith("ref"):
+                args[p.name] = 5
+            elif n.startswith("pred"):
+                args[p.name] = 7
+        return args
+
+    def run(mv, extra):
+        a = plain_args()
+        it = SelInterp(prog, mcall, a, self_obj=mv)
+        if extra:
+            it.env.update({})
+        # keyword options travel in the **kwargs parameter
+        if has_varkw:
+            it.env[mcall.node.args.kwarg.arg] = dict(extra)
+        if mcall.node.args.vararg is not None:
+            it.env[mcall.node.args.vararg.arg] = ()
+        out = it.run()
+        calls = it.root.inner_calls
+        if out.kind != "return" or len(calls) != 1:
+            return None
+        _, b, _ = calls[0]
+        return {k: repr(v) for k, v in b.items() if k not in ("reference", "prediction")}
+
+    def fresh():
+        return Obj(mv_cls, {"name": "M", "long_name": "M", "decreasing": False, "_metric_function": Sym("kernel:M")})
+
+    base = run(fresh(), {})
+    mv = fresh()
+    first = run(mv, {"connectivity": 2, "voxelspacing": Sym("SPACING")}) if has_varkw else run(mv, {})
+    second = run(mv, {})
+    if base is None or first is None or second is None:
+        ctx.undecided("R15.9", mcall, mcall.node, f"{mcall.qual}:history", "metric call not evaluable")
+        return
+    ctx.decide("R15.9", mcall, mcall.node, f"{mcall.qual}:history", "a plain metric call after a call with per-call options hands the kernel the same arguments as a plain call on an untouched metric (nothing of the earlier call's options is remembered)", second == base, {"plain_call_on_fresh_metric": base, "plain_call_after_a_call_with_options": second})
+
+
 def check_result_purity(ctx: Ctx):
     from . import c13
     from .resultrun import build_edge_case_handler
@@ -475,6 +531,7 @@ def check(ctx: Ctx):
     _run_rule(ctx, "check_pools", check_pools)
     _run_rule(ctx, "check_state_writers", check_state_writers)
     _run_rule(ctx, "check_globals", check_globals)
+    _run_rule(ctx, "R15.9", check_metric_call_history)
     _guard(ctx, "R15.8", check_param_aliasing)
 
 
